@@ -11,13 +11,13 @@ Open Scope list_scope.
 
 (** ** Coupled runs *)
 
-Lemma crun_grun : forall cfg g s acts evs g' s', crun cfg g s acts evs g' s' -> grun P g acts = Some (g', evs).
+Lemma crun_grun : forall cfg g s acts evs g' s', crun P cfg g s acts evs g' s' -> grun P g acts = Some (g', evs).
 Proof.
   induction 1 as [|g s a g1 ev s1 acts evs g2 s2 Hg Hd Hm Hr Hc IH]; [reflexivity|].
   cbn [grun]. now rewrite Hg, IH.
 Qed.
 
-Lemma crun_rel : forall cfg g s acts evs g' s', crun cfg g s acts evs g' s' -> skel_rel cfg g s -> skel_rel cfg g' s'.
+Lemma crun_rel : forall cfg g s acts evs g' s', crun P cfg g s acts evs g' s' -> skel_rel cfg g s -> skel_rel cfg g' s'.
 Proof. induction 1; auto. Qed.
 
 Lemma mstep_run : forall cfg s s', mstep cfg s s' -> exists ls, run cfg s ls = Some s' /\ (List.length ls <= 1)%nat.
@@ -25,7 +25,7 @@ Proof.
   intros cfg s s' [->|[l Hl]]; [exists []; split; [reflexivity | cbn; lia] | exists [l]; split; [cbn; now rewrite Hl | cbn; lia]].
 Qed.
 
-Lemma crun_exec : forall cfg g s acts evs g' s', crun cfg g s acts evs g' s' ->
+Lemma crun_exec : forall cfg g s acts evs g' s', crun P cfg g s acts evs g' s' ->
   exists ls, run cfg s ls = Some s' /\ (List.length ls <= List.length acts)%nat.
 Proof.
   induction 1 as [|g s a g1 ev s1 acts evs g2 s2 Hg Hd Hm Hr Hc IH]; [exists []; split; [reflexivity | cbn; lia]|].
@@ -33,9 +33,9 @@ Proof.
   exists (l1 ++ l2). split; [now rewrite run_app, Hl1 | rewrite app_length; cbn; lia].
 Qed.
 
-Lemma crun_snoc : forall cfg g s acts evs g1 s1 a g2 ev s2, crun cfg g s acts evs g1 s1 ->
+Lemma crun_snoc : forall cfg g s acts evs g1 s1 a g2 ev s2, crun P cfg g s acts evs g1 s1 ->
   gstep P g1 a = Some (g2, ev) -> data_ok s1 g1 a -> mstep cfg s1 s2 -> skel_rel cfg g2 s2 ->
-  crun cfg g s (acts ++ [a]) (evs ++ ev) g2 s2.
+  crun P cfg g s (acts ++ [a]) (evs ++ ev) g2 s2.
 Proof.
   induction 1 as [|g s a0 g0 ev0 s0 acts evs g1 s1 Hg Hd Hm Hr Hc IH]; intros Hg2 Hd2 Hm2 Hr2.
   - cbn [app]. rewrite <- (app_nil_r ev). econstructor; eauto. constructor.
@@ -45,8 +45,8 @@ Qed.
 (** a coupled run can be extended by EVERY step of the skeleton semantics whose data choice follows the model state:
     no schedule is left out *)
 Theorem crun_extend : forall cfg g s acts evs g1 s1 a g2 ev, NoDup (c_targets cfg) -> skel_rel cfg g s ->
-  crun cfg g s acts evs g1 s1 -> gstep P g1 a = Some (g2, ev) -> data_ok s1 g1 a ->
-  exists s2, crun cfg g s (acts ++ [a]) (evs ++ ev) g2 s2.
+  crun P cfg g s acts evs g1 s1 -> gstep P g1 a = Some (g2, ev) -> data_ok s1 g1 a ->
+  exists s2, crun P cfg g s (acts ++ [a]) (evs ++ ev) g2 s2.
 Proof.
   intros cfg g s acts evs g1 s1 a g2 ev Hnd Hr Hc Hg Hd.
   destruct (conv_step cfg g1 s1 a g2 ev Hnd (crun_rel _ _ _ _ _ _ _ Hc Hr) Hg Hd) as (s2 & Hm & Hr2).
@@ -56,7 +56,7 @@ Qed.
 (** every coupled run from the start is a run of the skeleton semantics, is matched by an execution of the model that
     is not longer, and ends in related states *)
 Theorem skeleton_run_is_model_run : forall cfg acts evs g s,
-  crun cfg (ginit P (c_targets cfg)) (init cfg) acts evs g s ->
+  crun P cfg (ginit P (c_targets cfg)) (init cfg) acts evs g s ->
   grun P (ginit P (c_targets cfg)) acts = Some (g, evs)
   /\ (exists ls, exec cfg (init cfg) ls s /\ (List.length ls <= List.length acts)%nat)
   /\ skel_rel cfg g s.
@@ -66,7 +66,7 @@ Proof.
   - eapply crun_rel; eauto. apply skel_rel_init.
 Qed.
 
-Lemma crun_reachable : forall cfg acts evs g s, crun cfg (ginit P (c_targets cfg)) (init cfg) acts evs g s -> reachable cfg s.
+Lemma crun_reachable : forall cfg acts evs g s, crun P cfg (ginit P (c_targets cfg)) (init cfg) acts evs g s -> reachable cfg s.
 Proof. intros cfg acts evs g s Hc. destruct (skeleton_run_is_model_run _ _ _ _ _ Hc) as (_ & (ls & Hl & _) & _). now exists ls. Qed.
 
 (** ** What related states have in common *)
@@ -116,14 +116,14 @@ Qed.
 (** ** Transfer of the model's theorems (well-formed configurations) *)
 
 Theorem skeleton_no_panic : forall cfg acts evs g s, wf_config cfg ->
-  crun cfg (ginit P (c_targets cfg)) (init cfg) acts evs g s -> g_panic g = None.
+  crun P cfg (ginit P (c_targets cfg)) (init cfg) acts evs g s -> g_panic g = None.
 Proof.
   intros cfg acts evs g s Hwf Hc. destruct (skeleton_run_is_model_run _ _ _ _ _ Hc) as (_ & _ & Hrel).
   apply (skel_rel_panic_iff _ _ _ Hrel). apply (no_panic cfg s Hwf). eapply crun_reachable; eauto.
 Qed.
 
 Theorem skeleton_final_delivery : forall cfg acts evs g s, wf_config cfg ->
-  crun cfg (ginit P (c_targets cfg)) (init cfg) acts evs g s -> gfinal g = true ->
+  crun P cfg (ginit P (c_targets cfg)) (init cfg) acts evs g s -> gfinal g = true ->
   s = final_state cfg /\ forall i, In i (c_targets cfg) -> recvd i s = expected cfg i /\ finished i s = true.
 Proof.
   intros cfg acts evs g s Hwf Hc Hf. destruct (skeleton_run_is_model_run _ _ _ _ _ Hc) as (_ & _ & Hrel).
